@@ -406,7 +406,37 @@ class Ballistic(Problem):
         return abs(k)
 
 
+class DecayMix(Problem):
+    """u' = -k lam u (u0 large: the state's magnitude shrinks by orders of magnitude) next to a bounded nonlinear oscillator
+    q' = k p, p' = k(-q - b q^3): the scale of the state and the need for Newton iterations are decoupled.  y = (u, q, p)."""
+
+    def __init__(self, desc):
+        super().__init__(desc)
+        self.lam = float(self.params["lam"])
+        self.b = float(self.params["b"])
+
+    def f(self, t, y, k=1.0, **kw):
+        y = np.asarray(y)
+        out = np.empty_like(y)
+        out[0] = -k * y.dtype.type(self.lam) * y[0]
+        out[1] = k * y[2]
+        out[2] = k * (-y[1] - y.dtype.type(self.b) * y[1] ** 3)
+        return out
+
+    def jac(self, t, y, k=1.0, **kw):
+        y = np.asarray(y)
+        J = np.zeros((3, 3), dtype=y.dtype)
+        J[0, 0] = -k * self.lam
+        J[1, 2] = k
+        J[2, 1] = k * (-1 - 3 * self.b * y[1] ** 2)
+        return J
+
+    def lipschitz(self, k=1.0):
+        return abs(k) * max(self.lam, 1.0 + 3 * self.b * 4.0)
+
+
 FAMILIES = {
+    "decaymix": DecayMix,
     "ballistic": Ballistic,
     "tdosc": TDOsc,
     "linear": Linear,
